@@ -157,6 +157,9 @@ def fill_idiom(facts, fn, sr, call, op, slots, res, R="C02.3.array-fill"):
             res.violation(R, f, fnq, "%s@%d:count" % (op, call["l"][1]), call["l"][1], "count handed with the position array of the %s is not a local counter" % role)
             continue
         n = cnt[0]
+        if n.get("vecsize") is not None:
+            vec_size_fill(facts, fn, sr, call, op, role, s, n, roles, slots, res, R)
+            continue
         ndid = n["var"]
         ndecl = n["decl"]
         init = strip(kids(ndecl)[0]) if kids(ndecl) else None
@@ -220,6 +223,81 @@ def fill_idiom(facts, fn, sr, call, op, slots, res, R="C02.3.array-fill"):
             res.violation(R, f, fnq, key, call["l"][1], "position array '%s' is filled through an unrecognised index form %s" % (s["name"], sorted(idx_kinds)))
 
 
+def vec_size_fill(facts, fn, sr, call, op, role, s, n, roles, slots, res, R):
+    """the count handed to the kernel is the length of the vector of references: slot k of the position array must hold the code of
+    element k of that vector.  Accepted: `a[v.size()] = e` in the same block as (and before) `v.emplace_back(...)`; or `a[i - i0] = e`
+    where i advances by one in every iteration of the filling loop, i0 is i at the point the vector is empty, and the vector receives
+    exactly one element in every iteration (an element appended under a condition lets the slot index run ahead of the vector)."""
+    fm = sr.fm
+    fnq = fn["qname"]
+    f = tbf.rel(facts.path_of(call))
+    vdid = n["vecsize"]
+    vecs = [x for (r2, p2, _io), x in zip(roles, slots) if r2 == role and x["kind"] == "vec" and x["var"] == vdid]
+    key = "%s@%d:%s" % (op, call["l"][1], s["name"])
+    if not vecs:
+        res.violation(R, f, fnq, key, call["l"][1], "the count handed with '%s' is the length of a vector that is not the %s list of this call" % (s["name"], role))
+        return
+    pushes = [x for x in walk(fm.body) if x.get("k") in ("CallExpr", "CXXMemberCallExpr") and tbf.callee_name(x) in ("emplace_back", "push_back")
+              and tbf.call_base(x) is not None and strip(tbf.call_base(x)).get("did") == vdid]
+    clears = [c for c in walk(fm.body) if c.get("k") in ("CallExpr", "CXXMemberCallExpr") and tbf.callee_name(c) == "clear" and tbf.call_base(c) is not None and strip(tbf.call_base(c)).get("did") == vdid]
+    bad = []
+    kinds = []
+    for fill in s["fills"]:
+        ix = strip(fill["index"])
+        while ix.get("k") in ("CXXStaticCastExpr", "CStyleCastExpr", "CXXFunctionalCastExpr") and kids(ix):
+            ix = strip(kids(ix)[0])
+        if ix.get("k") in ("CallExpr", "CXXMemberCallExpr") and tbf.callee_name(ix) == "size" and tbf.call_base(ix) is not None and strip(tbf.call_base(ix)).get("did") == vdid:
+            kinds.append("size")
+            nxt = [p for p in pushes if same_compound(p, fill["node"]) and p["l"][1] >= fill["node"]["l"][1]]
+            if len(nxt) != 1:
+                bad.append("the code written at slot %s.size() (line %d) is not followed by exactly one append to that vector in the same block" % (vecs[0]["name"], fill["node"]["l"][1]))
+            continue
+        if ix.get("k") == "BinaryOperator" and ix.get("op") == "-":
+            a, b = strip(kids(ix)[0]), strip(kids(ix)[1])
+            kinds.append("offset")
+            loop = None
+            for an in tbf.ancestors(fill["node"]):
+                if an.get("k") in ("WhileStmt", "ForStmt", "DoStmt"):
+                    loop = an
+                    break
+            if loop is None or a.get("k") != "DeclRefExpr" or b.get("k") != "DeclRefExpr":
+                bad.append("slot index `%s` is not (running counter - its value when the list was empty)" % facts.ntext(ix))
+                continue
+            lbody = loop["c"][0] if loop.get("k") == "DoStmt" else loop["c"][-1]
+            top = kids(lbody) if lbody is not None and lbody.get("k") == "CompoundStmt" else []
+            incs = [x for x in top if is_increment(x, a["did"])]
+            all_incs = [x for x in walk(loop) if is_increment(x, a["did"])]
+            bdecl = fm.decls.get(b["did"])
+            b_ok = bdecl is not None and kids(bdecl) and strip(kids(bdecl)[0]).get("did") == a["did"] and b["did"] not in fm.assigned and not any(x is bdecl for x in walk(loop))
+            top_push = [p for p in pushes if any(p is t or (t.get("k") not in ("IfStmt", "WhileStmt", "ForStmt", "DoStmt", "SwitchStmt", "CompoundStmt") and any(p is y for y in walk(t))) for t in top)]
+            in_loop_push = [p for p in pushes if any(p is y for y in walk(loop))]
+            if len(incs) != 1 or len(all_incs) != 1:
+                bad.append("the counter `%s` of slot index `%s` does not advance exactly once per iteration" % (a.get("name"), facts.ntext(ix)))
+            elif not b_ok:
+                bad.append("`%s` in slot index `%s` is not the counter's value taken where the list is empty" % (b.get("name"), facts.ntext(ix)))
+            elif len(top_push) != 1 or len(in_loop_push) != 1:
+                cond = [p for p in in_loop_push if p not in top_push]
+                bad.append("slot index `%s` advances in every iteration but %s: after an iteration that appends nothing, code k no longer belongs to element k of the list handed to %s" % (
+                    facts.ntext(ix), ("'%s' receives an element only under a condition (line %d)" % (vecs[0]["name"], cond[0]["l"][1])) if cond else "the list does not receive exactly one element per iteration", op))
+            elif fill["node"]["l"][1] > incs[0]["l"][1]:
+                bad.append("the slot index is evaluated after the counter has advanced")
+            continue
+        kinds.append("other")
+        bad.append("position array '%s' is filled through an unrecognised index form `%s`" % (s["name"], facts.ntext(ix)[:40]))
+    # the call inside the filling loop is followed by the clear of the vector
+    loop = None
+    for an in tbf.ancestors(call):
+        if an.get("k") in ("WhileStmt", "ForStmt", "DoStmt"):
+            loop = an
+            break
+    if loop is not None and any(any(an is loop for an in tbf.ancestors(fill["node"])) for fill in s["fills"]) and not any(x is vecs[0]["decl"] for x in walk(loop)):
+        if not any(same_compound(c, call) and c["l"][1] > call["l"][1] for c in clears):
+            bad.append("the kernel call inside the filling loop is not followed by `%s.clear()` in the same block" % vecs[0]["name"])
+    res.instance(R, "%s %s" % (fnq, key), facts.loc(call), "array %s, count = %s: fills %s, %d appends, %d clears" % (s["name"], n["name"], kinds, len(pushes), len(clears)))
+    for b in bad:
+        res.violation(R, f, fnq, key, call["l"][1], "array-fill idiom broken for '%s': %s; the kernel would read a position code that belongs to another cell" % (s["name"], b))
+
+
 def is_increment(st, did):
     """`n += k` (k a positive literal), `++n` or `n++` as a statement"""
     st = strip(st)
@@ -236,6 +314,9 @@ def non_empty(facts, fn, sr, call, op, slots, res, R="C02.3.non-empty"):
     if not cnts:
         return
     n = cnts[0]
+    if n.get("vecsize") is not None:
+        non_empty_vec(facts, fn, sr, call, op, n, res, R)
+        return
     ndid = n["var"]
     ok = None
     how = ""
@@ -281,6 +362,63 @@ def non_empty(facts, fn, sr, call, op, slots, res, R="C02.3.non-empty"):
     if not ok:
         res.violation(R, tbf.rel(facts.path_of(call)), fn["qname"], key, call["l"][1],
                       "kernel operator %s may be called with an empty list: %s" % (op, how or "no dominating increment or guard"))
+
+
+def non_empty_vec(facts, fn, sr, call, op, n, res, R):
+    """same rule when the count is the vector's length: an unconditional append dominates the call, or a guard on emptiness / size"""
+    vdid = n["vecsize"]
+
+    def is_push(st):
+        st = strip(st)
+        return st.get("k") in ("CallExpr", "CXXMemberCallExpr") and tbf.callee_name(st) in ("emplace_back", "push_back") and tbf.call_base(st) is not None and strip(tbf.call_base(st)).get("did") == vdid
+
+    def guard_ok(cond, neg=False):
+        c = strip(cond)
+        if c.get("k") == "UnaryOperator" and c.get("op") == "!":
+            return guard_ok(kids(c)[0], not neg)
+        if c.get("k") in ("CallExpr", "CXXMemberCallExpr") and tbf.call_base(c) is not None and strip(tbf.call_base(c)).get("did") == vdid:
+            if tbf.callee_name(c) == "empty":
+                return neg
+            if tbf.callee_name(c) == "size":
+                return not neg
+        if c.get("k") == "BinaryOperator" and c.get("op") in (">", "!=") and not neg:
+            return guard_ok(kids(c)[0]) and facts.ntext(kids(c)[1]) == "0"
+        if c.get("k") in ("CXXStaticCastExpr", "CStyleCastExpr", "CXXFunctionalCastExpr") and kids(c):
+            return guard_ok(kids(c)[0], neg)
+        return False
+    ok, how = None, ""
+    cur = call
+    while ok is None:
+        par = cur.get("_p")
+        if par is None:
+            break
+        if par.get("k") == "CompoundStmt":
+            sibs = kids(par)
+            pos = [i for i, x in enumerate(sibs) if x is cur][0]
+            for sib in reversed(sibs[:pos]):
+                if is_push(sib):
+                    ok, how = True, "element appended unconditionally at line %d before the call" % sib["l"][1]
+                    break
+                if sib.get("k") == "DoStmt" and any(is_push(x) for x in kids(sib["c"][0])):
+                    ok, how = True, "do-while body at line %d appends at least one element" % sib["l"][1]
+                    break
+                s0 = strip(sib)
+                if s0.get("k") in ("CallExpr", "CXXMemberCallExpr") and tbf.callee_name(s0) == "clear" and tbf.call_base(s0) is not None and strip(tbf.call_base(s0)).get("did") == vdid:
+                    ok, how = False, "list cleared at line %d with no append before the call" % sib["l"][1]
+                    break
+            if ok is not None:
+                break
+        if par.get("k") == "IfStmt" and cur is par["c"][1] and guard_ok(par["c"][0]):
+            ok, how = True, "guarded by `%s`" % facts.ntext(par["c"][0])
+            break
+        if par.get("k") in ("WhileStmt", "ForStmt", "DoStmt", "LambdaExpr"):
+            ok, how = False, "reached the head of the enclosing loop without an unconditional append"
+            break
+        cur = par
+    key = "%s@%d" % (op, call["l"][1])
+    res.instance(R, "%s %s" % (fn["qname"], key), facts.loc(call), how or "no dominating append or guard found")
+    if not ok:
+        res.violation(R, tbf.rel(facts.path_of(call)), fn["qname"], key, call["l"][1], "kernel operator %s may be called with an empty list: %s" % (op, how or "no dominating append or guard"))
 
 
 def wrapper_param_roles(facts, cmap):
